@@ -53,8 +53,27 @@ class Read:
 
 
 class Bam:
-    def __init__(self, reads_by_chrom):
+    """Stand-in for pysam.AlignmentFile with the parts of its interface a coverage routine may
+    legitimately use: fetch, the contig table, the context-manager protocol."""
+
+    def __init__(self, reads_by_chrom, lengths=None):
         self.reads = reads_by_chrom
+        self._lengths = dict(lengths or {})
+
+    def get_reference_length(self, reference):
+        return self._lengths.get(reference, M)
+
+    @property
+    def references(self):
+        return tuple(self.reads)
+
+    @property
+    def lengths(self):
+        return tuple(self.get_reference_length(c) for c in self.reads)
+
+    @property
+    def nreferences(self):
+        return len(self.reads)
 
     def fetch(self, reference=None, start=None, end=None):
         return list(self.reads.get(reference, []))
@@ -78,11 +97,16 @@ def h_depth(ctx, lengths):
     s = ctx.int("bs", 0, M)
     e = ctx.int("be", 0, M)
     mq = ctx.int("min_mapq", 0, 60)
-    bam = Bam({"chr1": reads})
+    # the contig has a length; reads lie on it, the bin may run past its end
+    clen = ctx.int("contig_len", 1, M)
+    for r in reads:
+        ctx.assume(r.positions[-1] < clen)
+    bam = Bam({"chr1": reads}, {"chr1": clen})
+    ctx.cover("bin runs past the contig end", e > clen)
     try:
         count, row = coverage.region_depth_count(bam, "chr1", s, e, "GENE", mq)
     except Exception as exc:
-        ctx.claim(False, f"region_depth_count raised {type(exc).__name__}", info=str(exc)[:200])
+        claim_raised(ctx, "region_depth_count", exc)
         return
     chrom, rs, re_, gene, lg, depth = row
     ctx.observe("depth", depth)
@@ -127,7 +151,7 @@ def h_count_rows(ctx, order):
     try:
         res = list(coverage.interval_coverages_count(io.StringIO("".join(lines)), "sample.bam", 0, 1))
     except Exception as exc:
-        ctx.claim(False, f"interval_coverages_count raised {type(exc).__name__}", info=str(exc)[:200])
+        claim_raised(ctx, "interval_coverages_count", exc)
         return
     finally:
         coverage.pysam = orig
@@ -184,7 +208,7 @@ def h_workers(ctx):
         one = list(coverage.interval_coverages_count(io.StringIO(text), "sample.bam", mq, 1))
         many = list(coverage.interval_coverages_count(io.StringIO(text), "sample.bam", mq, 3))
     except Exception as exc:
-        ctx.claim(False, f"interval_coverages_count raised {type(exc).__name__}", info=str(exc)[:200])
+        claim_raised(ctx, "interval_coverages_count", exc)
         return
     finally:
         coverage.pysam, coverage.futures = orig_p, orig_f
@@ -244,7 +268,7 @@ def h_bam_index(ctx, ext):
     try:
         got = samutil.ensure_bam_index(bam)
     except Exception as exc:
-        ctx.claim(False, f"ensure_bam_index raised {type(exc).__name__}", info=str(exc)[:200])
+        claim_raised(ctx, "ensure_bam_index", exc)
         return
     finally:
         samutil.os, samutil.pysam = orig_os, orig_py
@@ -289,7 +313,7 @@ def h_pileup(ctx, ncols):
     try:
         table = coverage.interval_coverages_pileup("regions.bed", "sample.bam", 0, 1)
     except Exception as exc:
-        ctx.claim(False, f"interval_coverages_pileup raised {type(exc).__name__}", info=str(exc)[:200])
+        claim_raised(ctx, "interval_coverages_pileup", exc)
         return
     finally:
         coverage.pysam = orig
@@ -331,7 +355,7 @@ def h_chunks(ctx, lines):
                 names.append(fh.read().splitlines(True))
             parallel.rm(nm)
     except Exception as exc:
-        ctx.claim(False, f"to_chunks raised {type(exc).__name__}", info=str(exc)[:200])
+        claim_raised(ctx, "to_chunks", exc)
         return
     finally:
         if orig_open is None:
@@ -353,7 +377,7 @@ def h_chunks(ctx, lines):
 L5 = ["chr1\t0\t10\tA", "#comment", "chr1\t10\t20\tB", "chr2\t5\t9\tC", "chr2\t9\t30\tD", "#tail"]
 
 HARNESSES = [
-    Harness("depth", h_depth, [{"lengths": [1]}, {"lengths": [3]}, {"lengths": [2, 2]}, {"lengths": [3, 3], "tier": "thorough"}], covers=["positive depth", "zero-width bin", "uncovered bin", "read filtered", "read straddles the bin edge"], wall_s=300, keep_uf=True),
+    Harness("depth", h_depth, [{"lengths": [1]}, {"lengths": [3]}, {"lengths": [2, 2]}, {"lengths": [3, 3], "tier": "thorough"}], covers=["positive depth", "zero-width bin", "uncovered bin", "read filtered", "read straddles the bin edge", "bin runs past the contig end"], wall_s=300, keep_uf=True),
     Harness("count_rows", h_count_rows, [{"order": list(o)} for o in ("abc", "cab", "bca", "ba")], covers=["reached"], wall_s=240, nonce_fork=False),
     Harness("pileup", h_pileup, [{"ncols": 3}, {"ncols": 4}, {"ncols": 6}], covers=["reached", "zero-width bin", "uncovered bin"], wall_s=240, keep_uf=True, nonce_fork=False),
     Harness("workers", h_workers, [{}], covers=["reached", "a read below the cut-off"], wall_s=240, keep_uf=True, nonce_fork=False),
